@@ -1,5 +1,4 @@
 CONSTANTS
-  Fix = FALSE
   Mutant = "none"
 INIT TInit
 NEXT TNext
